@@ -95,13 +95,14 @@ def _flows_into(f, target):
 def rule_sort_order(index, rep, rid):
     order_preserved_rule(index, rep, rid)
     _rule_sort_order(index, rep, rid)
+    _rule_sort_order(index, rep, rid, "dendropy.calculate.treesum.TreeSummarizer.tree_from_splits")
 
 
-def _rule_sort_order(index, rep, rid):
+def _rule_sort_order(index, rep, rid, qual=None):
     """The list handed to from_split_bitmasks by SplitDistribution.consensus_tree
     is sorted descending by (frequency, split): a total order that does not
     depend on dict insertion (= arrival) order."""
-    fi = index.function(SD + ".consensus_tree")
+    fi = index.function(qual or (SD + ".consensus_tree"))
     call = [c for c in calls_in(fi.node) if call_name(c) == "from_split_bitmasks"]
     if len(call) != 1:
         raise AnalysisError("%s: consensus_tree no longer calls from_split_bitmasks exactly once" % rid)
@@ -166,6 +167,19 @@ def _rule_sort_order(index, rep, rid):
         # natural tuple order: element must be a tuple that contains the split after the frequency
         if elem_tuple is None or len(elem_tuple.elts) < 2:
             key_has_split = False
+        else:
+            # ... and the frequency comes FIRST: the leading component must not be the variable that walks the table's keys (the split)
+            pm_ = parent_map(fi.node)
+            lv = set()
+            q_ = pm_.get(elem_tuple)
+            while q_ is not None and q_ is not fi.node:
+                if isinstance(q_, ast.For):
+                    lv |= {x.id for x in ast.walk(q_.target) if isinstance(x, ast.Name)} if not isinstance(q_.target, ast.Tuple) else set()
+                q_ = pm_.get(q_)
+            first = elem_tuple.elts[0]
+            rep.check(not (isinstance(first, ast.Name) and first.id in lv), rid, fi.qualname, "candidates ordered by split value, not by frequency: %s" % norm(elem_tuple), where,
+                      "%s: the sort tuples lead with the frequency (%s)" % (fi.name, norm(elem_tuple)),
+                      "%s sorts tuples `%s` whose first component is the split itself: candidates are tried in order of their bitmask value instead of decreasing frequency, so below a threshold of one half a less frequent split can displace a more frequent one it conflicts with" % (fi.qualname, norm(elem_tuple)))
     rep.check(descending, rid, fi.qualname, "sort direction: " + norm(sort_call)[:80], where,
               "consensus_tree: candidates sorted in DEcreasing frequency (%s)" % norm(sort_call)[:60],
               "candidate splits are not sorted in decreasing order of frequency (`%s`): low-frequency splits are inserted first and can exclude better-supported ones" % norm(sort_call)[:80])
@@ -610,6 +624,11 @@ def run(index, rep, tier):
             rep.check(k in produced, "R05.7", summ.qualname, "summary key %r" % k, fn_where(summ, node if hasattr(node, "lineno") else None),
                       "summary field %r is produced by statistics.summarize" % k,
                       "the summarizer looks up summary field %r, which statistics.summarize never produces (it produces %s): that summary silently falls back to the no-data value" % (k, sorted(produced)))
+
+    # ---- R05.13 the counts contain only trees that were accepted
+    with rep.section("R05.13"):
+        rep.rule("R05.13", "the frequencies are over the trees that were accepted: a tree is validated before anything of it is counted (C06 R06.11)")
+        rep.floor("R05.13", "borrowed obligations", 3, borrow(index, rep, "C06", {"R06.11"}, "R05.13"))
 
 
 def _weight_rule_text(fi, name):
